@@ -219,6 +219,9 @@ class DetOracle:
             return self.memo[nt]
         if nt in self.busy:
             raise RecursionError("cyclic")
+        if nt not in self.rules:
+            self.dead_rules.append((nt, None))      # a rule refers to a non-terminal without rules
+            return []
         self.busy.add(nt)
         out = []
         for P, (args, st) in self.rules.get(nt, {}).items():
@@ -472,8 +475,9 @@ def check_det(case, M, rng, g, res):
         if plain:
             fail("oracle", "a rule of a clean CFG derives no program", str(orc0.dead_rules[:2]))
         else:
-            # TTCFG.size_constraint leaves unproductive rules behind (saturation builder, property
-            # C13): on such a table neither programs() nor any weight assignment can be right
+            # TTCFG.size_constraint leaves rules behind whose arguments reach, for some automaton
+            # state, a non-terminal that has no rules (saturation builder, property C13): on
+            # such a table neither programs() nor any normalised weight assignment can be right
             tags.append("unclean-ttcfg(C13)")
             return res
     if len({freeze(t) for t in terms}) != len(terms):
@@ -528,20 +532,23 @@ def check_det(case, M, rng, g, res):
             if want != got:
                 fail("corr", "pcfg_from_samples: learnt weights differ from the model", _first_diff(want, got))
             # statement: learnt weights are the relative frequencies of the rules used
-            cnt = {}
-            for t in samples:
-                _count_rules(g, t, g.start, cnt)
-            for S in g.rules:
-                tot = sum(cnt.get((S, head_of(P)), 0) for P in g.rules[S])
-                if tot > 0:
-                    for P in g.rules[S]:
-                        w = pg.tags.get(S, {}).get(P)
-                        if w is None or w != cnt.get((S, head_of(P)), 0) / tot:
-                            if all(freeze(t) in {freeze(x) for x in terms} for t in samples):
+            member_set = {freeze(x) for x in terms}
+            if all(freeze(t) in member_set for t in samples):
+                cnt = {}
+                for t in samples:
+                    _count_rules(g, t, g.start, cnt)
+                for S in g.rules:
+                    tot = sum(cnt.get((S, head_of(P)), 0) for P in g.rules[S])
+                    if tot > 0:
+                        for P in g.rules[S]:
+                            w = pg.tags.get(S, {}).get(P)
+                            if w is None or w != cnt.get((S, head_of(P)), 0) / tot:
                                 fail("oracle", "learnt weight is not the relative frequency of the rule in the samples", f"{S} {P}: {w} vs {cnt.get((S, head_of(P)), 0)}/{tot}")
-                            break
-                elif S in pg.tags:
-                    fail("oracle", "a non-terminal never visited got weights", f"{S}")
+                                break
+                    elif S in pg.tags:
+                        fail("oracle", "a non-terminal never visited got weights", f"{S}")
+            else:
+                tags.append("samples-outside-language")
         if pg is None:
             tags.append("samples:" + outcome)
             res["nontrivial"] = len(terms) >= 3
